@@ -16,7 +16,10 @@ THEOREMS = ["C36_source_shape", "C36_release_after_timeout", "C36_never_released
             # every history, in-process stack (WfProofs/LifecycleIdle.lean)
             "C36_released_run_marked_idle", "C36_reloads_match_releases", "C36_reload_from_all_persisted", "C36_release_when_timers_quiescent",
             # DBOS stack: when a release is attempted (M7 (C), WfModel/DbosTimer.lean)
-            "C36_dbos_timer_source_shape", "C36_dbos_timer_discipline", "C36_dbos_release_attempt_after_timeout", "C36_dbos_timer_cover"]
+            "C36_dbos_timer_source_shape", "C36_dbos_timer_discipline", "C36_dbos_release_attempt_after_timeout", "C36_dbos_timer_cover",
+            "C36_dbos_no_timer_outlives_its_workflow",
+            # DBOS stack: `released` row vs. workflow in memory (machine (B), WfProofs/LifecycleCalm.lean)
+            "C36_dbos_released_means_unloaded_refuted", "C36_dbos_released_means_unloaded_partial"]
 LEAN_TARGETS = ["WfProps.C36"]
 EXPLANATION = (
     "Lean (same model M7 as C26): for every schedule — every release was decided on an idle_since at least idle_timeout old, idle_since holds the "
@@ -47,7 +50,13 @@ EXPLANATION = (
     "with no tick since; what is registered is never inside a release, so the pop is never foreign and no cancel reaches a running release "
     "(C36_dbos_timer_discipline); every attempt (begin_release) comes >= idle_timeout after the LAST announcement with no tick/resume since, unconditionally "
     "(C36_dbos_release_attempt_after_timeout); an announced-idle undisturbed run always has its attempt ahead at exactly announcement + idle_timeout "
-    "(C36_dbos_timer_cover); the bodies and call sites the actions are cut along are re-extracted (C36_dbos_timer_source_shape). Tie: the real decorator's "
+    "(C36_dbos_timer_cover); any received tick — the TickIdleRelease a workflow exits on included — or resume leaves no timer asleep "
+    "(C36_dbos_no_timer_outlives_its_workflow); protocol machine (B): `row = released => no workflow executing` is REFUTED at full strength by two model "
+    "witnesses (a release that begins during a resume; a live releaser slower than the crash timeout whose late complete_release closes another "
+    "releaser's release — complete_release is guarded by the row's state, not its holder; both replayed as CAS sequences on the real SQLite lock) and PROVED "
+    "for every schedule in which a release begins only while the workflow is up and no `releasing` row is taken over, together with: from every such "
+    "reachable released state the next sender reloads at once, exactly once, with its event folded in (C36_dbos_released_means_unloaded_refuted / _partial); "
+    "the bodies and call sites the actions are cut along are re-extracted (C36_dbos_timer_source_shape). Tie: the real decorator's "
     "timer code runs op by op (harness/server/dbos_timer.py: real internal adapter + decorator over stub inner adapter / lock / store, several runs, virtual time, "
     "release latencies) and after each observed action (idle, tick, resume, fire, finish) the registry, every timer task's state and the end of its sleep read from "
     "the loop's timer heap, and the attempts are compared with the compiled model; monitors on the log alone: attempt early / with a tick since / without "
@@ -117,6 +126,74 @@ def _dbos_never_released(out: Outcome) -> None:
     if not ok:
         out.violations.append(Violation("C36/dbos_standin_cycle", f"with the lifecycle row present the run was not released after the timeout and resumed by the next send: {o2['timeline']}",
                                         {"kind": "dbos_standin", "create_row": True}))
+
+
+ROW_WITNESSES = [
+    # the lock-level projection of C36.lateReleaseActs / C36.supersededCompleteActs (WfProps/C36.lean): ordinary CAS sequences for the real lock
+    ("late_release", [("create", 0), ("begin", 0), ("complete", 0), ("resume", 120000), ("begin", 0), ("complete", 0)],
+     ["None", "True", "None", "released", "True", "None"]),
+    ("superseded_complete", [("create", 0), ("begin", 0), ("sleep", 120001), ("resume", 120000), ("begin", 0), ("complete", 0)],
+     ["None", "True", "released", "True", "None"]),
+]
+
+
+def _row_witnesses(out: Outcome) -> None:
+    """C36_dbos_released_means_unloaded_refuted at the level of the real SqliteRunLifecycleLock: both witness schedules are CAS sequences the
+    lock accepts, ending in `released` (the second: complete_release by a releaser whose release had been taken over closes the release of
+    another one — the statement is guarded by the row's state only); answers and rows compared with the row model"""
+    import asyncio
+    import os
+
+    from ..runner import diff_streams
+    from ..vloop import run_virtual
+
+    for name, items, want in ROW_WITNESSES:
+        LC = LDB._patch_clocks()
+        db = LDB.make_db()
+        ops: list[str] = []
+        impl: list[str] = []
+        answers: list[str] = []
+
+        async def main(loop, items=items, db=db, ops=ops, impl=impl, answers=answers, LC=LC):  # noqa: ANN001
+            lock = LC.SqliteRunLifecycleLock(db)
+            rid = "run-0"
+            for kind, arg in items:
+                now = LDB.ms(loop.time())
+                if kind == "sleep":
+                    await asyncio.sleep(arg / 1000.0)
+                    continue
+                if kind == "create":
+                    res = await lock.create(rid)
+                    ops.append(f"db|0|create|{now}")
+                elif kind == "begin":
+                    res = await lock.begin_release(rid)
+                    ops.append(f"db|0|begin|{now}")
+                elif kind == "complete":
+                    res = await lock.complete_release(rid)
+                    ops.append(f"db|0|complete|{now}")
+                else:
+                    res = await lock.try_begin_resume(rid, crash_timeout_seconds=arg / 1000.0)
+                    ops.append(f"db|0|resume|{now}|{arg}")
+                answers.append(LDB.show_result(res))
+                impl.append(f"{LDB.show_result(res)} {LDB.read_row(db, rid)}")
+
+        try:
+            run_virtual(main, start=LDB.T0)
+        finally:
+            for suf in ("", "-wal", "-shm"):
+                try:
+                    os.unlink(db + suf)
+                except OSError:
+                    pass
+        m = Driver("lifecycle").run(ops)
+        d = diff_streams("lifecycle-row", ops, m, impl, context={"row_witness": name})
+        if d is not None and not out.divergences:
+            out.divergences.append(d)
+        out.evaluations += len(ops)
+        out.count(f"row witness {name}: final {impl[-1].split(' ')[-1].split('@')[0] if impl else '?'}")
+        if answers != want or not impl or not impl[-1].split(" ")[-1].startswith("row=released@"):
+            out.notes.append(f"row witness {name}: the real lock answered {answers}, final {impl[-1:] or '-'} (recorded: {want}, final released): "
+                             f"the lock-level half of C36_dbos_released_means_unloaded_refuted no longer replays")
 
 
 TIMER_MALFORMED = [("reset", "ok"), ("init|0", "bad-op"), ("idle|0", "no-run"), ("init|0|200", "ok"), ("fire|0|0", "disabled"), ("finish|0|3", "disabled"),
@@ -194,6 +271,7 @@ def run(env: Env) -> Outcome:
     LP.run_inprocess(env, out, "C36", env.budget(24, 2400), WITNESSES)
     LP.run_row_corr(env, out, env.budget(150, 20000), "C36")
     _dbos_never_released(out)
+    _row_witnesses(out)
     LP.run_dbos_gated(env, out, "C36", env.budget(40, 1500))
     run_dbos_timer(env, out, env.budget(150, 6000))
     return out
